@@ -7,10 +7,9 @@ unset GOTOOLCHAIN GOSUMDB 2>/dev/null || true
 rc=0
 # Lean: every Props module and every model driver named in props/*.json
 targets=$(python3 - <<'PY'
-import json,glob
+import json,subprocess
 mods,exes=set(),set()
-for f in sorted(glob.glob('props/*.json')):
-    p=json.load(open(f))
+for p in json.loads(subprocess.run(['./check','--dump-all'],capture_output=True,text=True).stdout).values():
     mods|=set(p.get('lean_modules',[]))
     for e in p.get('engines',[]):
         if e.get('model',True): exes.add('gpm_'+e['name'])
